@@ -3,9 +3,11 @@
 # as "ID:PROP" arguments); prints one line per change. Used to re-confirm the detection matrix.
 HERE="$(cd "$(dirname "$0")" && pwd)"
 cd "$HERE"
+# optional arguments: property ids to restrict the run to (e.g. C01 C02)
 for d in seeded/*/; do
   id=$(basename $d)
   prop=${id%%-*}
+  if [ $# -gt 0 ]; then case " $* " in *" $prop "*) ;; *) continue;; esac; fi
   r=$(./seedtest.sh $d/patch.diff $prop 2>&1 | head -1 | cut -c1-160)
   echo "$id $r"
 done
